@@ -4,16 +4,11 @@ import json
 from pathlib import Path
 VERIF = Path(__file__).resolve().parent.parent
 
-# pid -> (technique, level text, level note, design ref)
-CLAIMS = {
- "C16": ("Lean 4 theorem (induction over the member list) about a hand-written model of __getitem__/len/mazes + exhaustive model-vs-code correspondence",
-         "Unbounded theorems C16_getitem / C16_len / C16_mazes / C16_counts_agree / C16_getitem_out_of_range (all member-length vectors, all indices, any maze type) "
-         "about MZ.Coll.locate, the model of np.cumsum + np.searchsorted(cum, index+1); tied to the code on every run by comparing the real MazeDatasetCollection "
-         "with the model on every length vector up to 5 members x entries<=3 (thorough 6 x 4) and every index, identity checked with `is`.",
-         "Trusted: Lean kernel, axioms propext/Quot.sound, the correspondence harness; np.searchsorted/itertools.accumulate are modelled (validated on every case). "
-         "Counts clause assumes member cfg.n_mazes == len(member) (n_mazes is compare=False in the constructor's assertion).",
-         "DESIGN.md section 6 C16"),
-}
+# one file per claimed property: harness/claims/<Cxx>.json = {technique, level_text, level_note, design_ref}
+CLAIMS = {}
+for f in sorted((VERIF / "harness" / "claims").glob("C*.json")):
+    d = json.loads(f.read_text())
+    CLAIMS[f.stem] = (d["technique"], d["level_text"], d["level_note"], d["design_ref"])
 ALL = [f"C{i:02d}" for i in range(1, 21)]
 NOT_YET = "machinery for this property is not built yet in this round (planned: DESIGN.md section 6); not claimed until its check exists"
 
